@@ -47,7 +47,7 @@ def floors(ctx):
             "graphs_with_parallel": 50, "graphs_with_mixed_kinds": 50, "links_leaving_universe": 100,
             "empty_universe": 3, "undirected_merged_pairs": 20, "universes_over_256_members": 1, "cases_with_network_kwargs": 100,
             "links_listing_a_third_vertex": 100, "graphs_with_non_default_laws": 100,
-            "cases_with_markup_characters_in_labels": 100}
+            "cases_with_markup_characters_in_labels": 100, "exports_with_a_nested_export_in_the_label_callback": 100}
 
 
 NETWORK_KWARGS = [None, {"directed": True}, {"directed": False}, {"cdn_resources": "local", "directed": True, "notebook": False}]
@@ -57,6 +57,23 @@ def run_case(ctx, spec, with_funcs, nk=0):
     g = graphs.build(spec)
     case = {"spec": spec, "funcs": with_funcs, "nk": nk}
     rvf = rv_dump if with_funcs == "dump" else rv_markup if with_funcs == "markup" else rv
+    if with_funcs == "nested":
+        # a label callback that itself exports ANOTHER, disjoint universe (a drill-down page per node): the outer
+        # export's own bookkeeping must survive the inner one, and vice versa
+        outsiders = [v for v in g.verts if not any(v is m for m in g.uni.vertices)]
+        if not outsiders:
+            with_funcs = True
+        else:
+            from edgegraph.structure import Universe
+
+            inner_uni = Universe(vertices=outsiders)
+            inner_nets = []
+
+            def rvf(v, _u=inner_uni):  # noqa: F811
+                inner_nets.append(egpyvis.make_pyvis_net(_u, rvfunc=rv))
+                return rv(v)
+
+            ctx.count("exports_with_a_nested_export_in_the_label_callback")
     if with_funcs == "markup":
         ctx.count("cases_with_markup_characters_in_labels")
     kw = dict(rvfunc=rvf, refunc=re_) if with_funcs else {}
@@ -81,7 +98,7 @@ def run_case(ctx, spec, with_funcs, nk=0):
         return
     if with_funcs:
         labels = [net.get_node(i).get("label") for i in range(n)]
-        if labels != [rvf(v) for v in members]:
+        if labels != [(rv if with_funcs == "nested" else rvf)(v) for v in members]:
             ctx.violation("node_labels", f"labels {labels[:6]}, expected {[rvf(v) for v in members][:6]} (rvfunc evaluated "
                           f"on the same vertices after the export)", case)
             return
@@ -201,7 +218,7 @@ def run(ctx):
                 spec["extra"] = [[k_, i_] for k_, i_ in spec["extra"] if i_ not in spec["edges"][k_][1:3]]
         for f in graphs.features(spec):
             ctx.count("graphs_with_" + f)
-        run_case(ctx, spec, ("dump" if n % 4 == 3 else "markup" if n % 8 == 5 else True) if n % 2 else False,
+        run_case(ctx, spec, ("dump" if n % 4 == 3 else "markup" if n % 8 == 5 else "nested" if n % 8 == 1 else True) if n % 2 else False,
                  nk=(n // 2) % len(NETWORK_KWARGS) if n % 3 == 0 else 0)
         k += 1
         if k in (4, 150) and ctx.shard == 0:
